@@ -598,6 +598,9 @@ inductive Op
   | release (id : Nat)
   /-- a request went through the count wrapper: `globalCounter.Count` leaves an event -/
   | event
+  /-- the limiter mode is switched away and back (`ResetLimiter(other)`, `ResetLimiter(mode)`) while the server is not
+      ready: the reconcile loop is stopped and started again (its SECOND start); nothing else may change -/
+  | restart
   /-- one round of `globalCounterManager.doAcquire` at time `now`: `acquireRequest` decides whether and what to ask
       for; the request (if any) is answered by `ans` (`none`: no result for this flow control) through
       `globalCounter.send` -/
@@ -835,6 +838,7 @@ def step (st : State) : Op → Except String State
           | .ok (g', b) => .ok { st with cache := some { c with remote := some { rm with fc := some g' } }, lastRet := b }
   | .acquire id => .ok (acquireStep st id)
   | .release id => .ok (releaseStep st id)
+  | .restart => .ok st
   | .event =>
     match st.cache with
     | none => .ok st
